@@ -116,22 +116,34 @@ func findBootstrap(c *core.Ctx) (*bootstrapSubject, string) {
 	s.register = regs[0]
 	// the dispatch field: the []ComponentPostProcessor field read by the function that invokes PostProcessBeforeInitialization
 	for _, site := range c.CallSites(func(com *ssa.CallCommon) bool { return core.IsInvoke(com, ro.CPBeforeInit) }) {
-		fn := core.TopLevel(site.Parent())
-		if fn.Signature.Recv() == nil || core.NamedOf(fn.Signature.Recv().Type()) != s.recv {
-			continue
-		}
-		for _, g := range core.WithAnon(fn) {
-			for _, b := range g.Blocks {
-				for _, in := range b.Instrs {
-					if fa, ok := in.(*ssa.FieldAddr); ok {
-						if fr, ok := core.FieldOfAddr(fa); ok && fr.Owner == s.recv {
-							if sl, ok := fa.Type().Underlying().(*types.Pointer).Elem().Underlying().(*types.Slice); ok && types.Identical(sl.Elem(), cpp) {
-								s.dispatch = fr.Name
+		// ... or by its callers, when the dispatching function is handed the list (a walker recursing on the rest)
+		level := []*ssa.Function{core.TopLevel(site.Parent())}
+		seen := map[*ssa.Function]bool{}
+		for depth := 0; depth < 3 && s.dispatch == "" && len(level) > 0; depth++ {
+			var next []*ssa.Function
+			for _, fn := range level {
+				if seen[fn] || fn.Signature.Recv() == nil || core.NamedOf(fn.Signature.Recv().Type()) != s.recv {
+					continue
+				}
+				seen[fn] = true
+				for _, g := range core.WithAnon(fn) {
+					for _, b := range g.Blocks {
+						for _, in := range b.Instrs {
+							if fa, ok := in.(*ssa.FieldAddr); ok {
+								if fr, ok := core.FieldOfAddr(fa); ok && fr.Owner == s.recv {
+									if sl, ok := fa.Type().Underlying().(*types.Pointer).Elem().Underlying().(*types.Slice); ok && types.Identical(sl.Elem(), cpp) {
+										s.dispatch = fr.Name
+									}
+								}
 							}
 						}
 					}
 				}
+				for _, cl := range c.Callers(fn) {
+					next = append(next, core.TopLevel(cl))
+				}
 			}
+			level = next
 		}
 	}
 	if s.dispatch == "" {
@@ -157,11 +169,168 @@ func dispatchFieldName(c *core.Ctx) string {
 // dispatchList is what a decision table answers for a list-of-interfaces field of the delegate: the table's
 // processors for the dispatch list, nothing for any other list (the registration-order list is emptied by the
 // bootstrap) - a stage that ranges over the wrong list asks nobody and fails its order row.
-func dispatchList(c *core.Ctx, field string, procs *absint.List) absint.Value {
+func dispatchList(c *core.Ctx, t *tbl, field string, procs *absint.List) absint.Value {
 	if d := dispatchFieldName(c); d != "" && field != d {
+		if I, ok := derivedDispatchLists(c)[field]; ok && t != nil && t.typeTest != nil {
+			// an index kept next to the dispatch list: its entries of that interface, in the same order
+			out := &absint.List{IsNil: true}
+			for _, p := range procs.Elems {
+				is, known := t.typeTest(p, I)
+				if !known {
+					panic(&absint.Undecided{Msg: "whether " + absint.Show(p) + " is listed in the index " + field})
+				}
+				if is {
+					out.Elems, out.IsNil = append(out.Elems, p), false
+				}
+			}
+			return out
+		}
 		return &absint.List{IsNil: true}
 	}
 	return procs
+}
+
+// appendedElems: the values of `append(s, v1, v2)` (the elements of the variadic temporary), nil for `append(s, t...)`.
+func appendedElems(call *ssa.Call) []ssa.Value {
+	if bi, isB := call.Common().Value.(*ssa.Builtin); !isB || bi.Name() != "append" || len(call.Common().Args) != 2 {
+		return nil
+	}
+	sl, ok := call.Common().Args[1].(*ssa.Slice)
+	if !ok {
+		return nil
+	}
+	al, ok := sl.X.(*ssa.Alloc)
+	if !ok {
+		return nil
+	}
+	var out []ssa.Value
+	for _, ref := range *al.Referrers() {
+		ia, ok := ref.(*ssa.IndexAddr)
+		if !ok {
+			continue
+		}
+		for _, r2 := range *ia.Referrers() {
+			if st, ok := r2.(*ssa.Store); ok && st.Addr == ssa.Value(ia) {
+				out = append(out, st.Val)
+			}
+		}
+	}
+	return out
+}
+
+// derivedDispatchLists finds the index lists kept next to the dispatch list: a field []I of the delegate whose every
+// store is `F = append(F, v.(I))` under nothing but the success of that type test, in a function where the same v
+// is appended to the dispatch list just before - and every append to the dispatch list is accompanied by that test.
+// Such a list holds the dispatch list's entries of interface I in the same relative order, whatever the inputs.
+func derivedDispatchLists(c *core.Ctx) map[string]types.Type {
+	if v, ok := c.Memo.Load("derived-dispatch"); ok {
+		return v.(map[string]types.Type)
+	}
+	out := map[string]types.Type{}
+	defer func() { c.Memo.Store("derived-dispatch", out) }()
+	bs, _ := findBootstrap(c)
+	if bs == nil {
+		return out
+	}
+	st := core.StructOf(bs.recv)
+	if st == nil {
+		return out
+	}
+	// the appends to the dispatch list: store -> appended value
+	dStores, _ := c.FieldAccesses(bs.recv, bs.dispatch)
+	type dApp struct {
+		st *ssa.Store
+		v  ssa.Value
+	}
+	var dApps []dApp
+	for _, a := range dStores {
+		call, ok := a.Store.Val.(*ssa.Call)
+		if !ok {
+			return out // the dispatch list is also assigned as a whole: no index is recognised
+		}
+		el := appendedElems(call)
+		if _, isLoad := core.IsFieldLoad(core.Norm(call.Common().Args[0]), bs.recv, bs.dispatch); !isLoad || len(el) != 1 {
+			return out
+		}
+		dApps = append(dApps, dApp{a.Store, core.Norm(el[0])})
+	}
+	for i := 0; i < st.NumFields(); i++ {
+		f := st.Field(i)
+		sl, ok := f.Type().Underlying().(*types.Slice)
+		if !ok || !types.IsInterface(sl.Elem()) || f.Name() == bs.dispatch {
+			continue
+		}
+		stores, others := c.FieldAccesses(bs.recv, f.Name())
+		if len(stores) == 0 {
+			continue
+		}
+		good := true
+		for _, o := range others {
+			// loads only: the address must not escape
+			if u, isLoad := o.Instr.(*ssa.UnOp); !isLoad || u.X != ssa.Value(o.Addr) {
+				good = false
+			}
+		}
+		matched := map[*ssa.Store]bool{}
+		for _, a := range stores {
+			call, ok := a.Store.Val.(*ssa.Call)
+			if !ok {
+				good = false
+				break
+			}
+			el := appendedElems(call)
+			if _, isLoad := core.IsFieldLoad(core.Norm(call.Common().Args[0]), bs.recv, f.Name()); !isLoad || len(el) != 1 {
+				good = false
+				break
+			}
+			ex, ok := el[0].(*ssa.Extract)
+			if !ok || ex.Index != 0 {
+				good = false
+				break
+			}
+			ta, ok := ex.Tuple.(*ssa.TypeAssert)
+			if !ok || !ta.CommaOk || !types.Identical(ta.AssertedType, sl.Elem()) {
+				good = false
+				break
+			}
+			// paired with an append of the same value to the dispatch list that always comes with this test
+			var pair *dApp
+			for k := range dApps {
+				d := &dApps[k]
+				if d.st.Parent() == a.Fn && d.v == core.Norm(ta.X) && core.Dominates(d.st, ta) && c.InstrPostDominates(ta, d.st) {
+					pair = d
+				}
+			}
+			if pair == nil {
+				good = false
+				break
+			}
+			// the store happens exactly when the test succeeded: its control dependences beyond the dispatch append's are the ok edge
+			base := map[*ssa.If]bool{}
+			for _, cd := range c.ControlDeps(pair.st.Block()) {
+				base[cd.If] = true
+			}
+			nOwn := 0
+			for _, cd := range c.ControlDeps(a.Store.Block()) {
+				if base[cd.If] {
+					continue
+				}
+				okx, isEx := cd.If.Cond.(*ssa.Extract)
+				if !isEx || okx.Tuple != ssa.Value(ta) || okx.Index != 1 || !cd.Branch {
+					good = false
+				}
+				nOwn++
+			}
+			if nOwn != 1 || core.InnermostLoop(a.Fn, a.Store.Block()) != core.InnermostLoop(a.Fn, pair.st.Block()) {
+				good = false
+			}
+			matched[pair.st] = true
+		}
+		if good && len(matched) == len(dApps) {
+			out[f.Name()] = sl.Elem()
+		}
+	}
+	return out
 }
 
 // bootstrapTable registers n post-processors (every LazyInit / eager combination) through the registration method and
